@@ -222,7 +222,7 @@ def gen_book(rng, pool, fault, residue, max_fill=2500, n_extra=0):
         for mv, w, kind in gen_entries_for(rng, p, pool, clean):
             recs.append(struct.pack(">QHHI", p["keyi"], mv, w, rng.getrandbits(32) if rng.random() < 0.5 else 0))
             kinds.append(kind)
-    nfill = rng.choice([n for n in [0, 0, 1, 2, 3, 5, 17, 64, 100, 300, 1000, 2500, 2500, 2500, 20000, 60000] if n <= max_fill])
+    nfill = rng.choice([n for n in [0, 0, 0, 0, 1, 1, 2, 2, 3, 3, 5, 5, 17, 17, 64, 64, 100, 100, 300, 300, 1000, 1000, 2500, 2500, 2500, 2500, 2500, 2500, 2500, 2500, 20000, 60000] if n <= max_fill])
     near = 0
     for _ in range(min(nfill, 120)):
         r = rng.random()
